@@ -156,7 +156,7 @@ func receivers(data []byte) []date.Date {
 	}
 	y := int64(int32(uint32(data[1])<<24 | uint32(data[2])<<16 | uint32(data[3])<<8 | uint32(data[4])))
 	m, d := int(data[5]), int(data[6])
-	for _, yy := range []int64{y, 2000, y + 1, y - 1, y/4*4} {
+	for _, yy := range []int64{y, 2000, y + 1, y - 1, y / 4 * 4} {
 		if yy >= -999999999 && yy <= 999999999 && ref.ValidYMD(yy, m, d) {
 			out = append(out, date.New(int(yy), date.Month(m), d))
 		}
